@@ -19,6 +19,200 @@ fn oti_json(o: &Oti) -> Value {
            "n": o.sub_blocks(), "al": o.symbol_alignment()})
 }
 
+fn eval_case(c: &Value) -> (Value, Vec<String>) {
+    let mut mism: Vec<String> = vec![];
+    let mut got = json!(null);
+    match c["kind"].as_str().unwrap() {
+        "accept" => {
+            let (f, t, z, nn, al) = (lv(&c["f"]), c["t"].as_u64().unwrap() as u16, c["z"].as_u64().unwrap() as u8,
+                                     c["n"].as_u64().unwrap() as u16, c["al"].as_u64().unwrap() as u8);
+            let r = try_new(f, t, z, nn, al);
+            let want = c["accept"].as_bool().unwrap();
+            match &r {
+                Ok(oti) => {
+                    got = json!({"accepted": true, "oti": oti_json(oti)});
+                    if !want {
+                        mism.push("accepted a configuration that violates a limit".into());
+                    }
+                    if oti.transfer_length() != f || oti.symbol_size() != t || oti.source_blocks() != z
+                        || oti.sub_blocks() != nn || oti.symbol_alignment() != al {
+                        mism.push("accessors do not echo the arguments".into());
+                    }
+                }
+                Err(m) => {
+                    got = json!({"accepted": false, "msg": m});
+                    if want {
+                        mism.push("refused a configuration within all limits".into());
+                    }
+                }
+            }
+        }
+        "derive" => {
+            let (f, p, ws) = (lv(&c["f"]), c["p"].as_u64().unwrap() as u16, lv(&c["ws"]));
+            let valid = c["valid"].as_bool().unwrap();
+            let r = catch(move || raptorq::verif::derive_parameters(f, p, ws));
+            got = match &r {
+                Ok(oti) => json!({"res":"ok","oti":oti_json(oti)}),
+                Err(m) => json!({"res":"panic","msg":m}),
+            };
+            if valid {
+                let want = (c["t"].as_u64().unwrap(), c["z"].as_u64().unwrap(), c["n"].as_u64().unwrap(), c["al"].as_u64().unwrap());
+                let same = |o: &Oti| (o.symbol_size() as u64, o.source_blocks() as u64, o.sub_blocks() as u64, o.symbol_alignment() as u64) == want && o.transfer_length() == f;
+                match &r {
+                    Ok(oti) => {
+                        if !same(oti) {
+                            mism.push("derived parameters differ from RFC 6330 4.3".into());
+                        }
+                    }
+                    Err(_) => mism.push("derivation panicked although a valid configuration exists".into()),
+                }
+                if ws == 10 * 1024 * 1024 {
+                    match catch(move || Oti::with_defaults(f, p)) {
+                        Ok(oti) => if !same(&oti) { mism.push("with_defaults differs from RFC 6330 4.3".into()); },
+                        Err(m) => mism.push(format!("with_defaults panicked: {m}")),
+                    }
+                }
+                if f <= 256 * 1024 {
+                    // public route: builder -> encoder -> config, then round trip through the decoder
+                    let data: Vec<u8> = (0..f).map(|i| (i.wrapping_mul(2654435761) >> 7) as u8).collect();
+                    let d2 = data.clone();
+                    let rt = catch(move || {
+                        let mut b = raptorq::EncoderBuilder::new();
+                        b.set_decoder_memory_requirement(ws);
+                        b.set_max_packet_size(p);
+                        let enc = b.build(&d2);
+                        let cfg = enc.get_config();
+                        let mut dec = raptorq::Decoder::new(cfg);
+                        let mut res = None;
+                        for pk in enc.get_encoded_packets(0) {
+                            res = dec.decode(pk);
+                        }
+                        (cfg, res)
+                    });
+                    match rt {
+                        Ok((cfg, res)) => {
+                            if !same(&cfg) { mism.push("EncoderBuilder config differs from RFC 6330 4.3".into()); }
+                            if res.as_deref() != Some(&data[..]) { mism.push("round trip through derived parameters failed".into()); }
+                        }
+                        Err(m) => mism.push(format!("EncoderBuilder route panicked: {m}")),
+                    }
+                }
+            }
+        }
+        "wire" => {
+            let bytes_of = |v: &Value| -> Vec<u8> { v.as_array().unwrap().iter().map(|x| x.as_u64().unwrap() as u8).collect() };
+            match c["what"].as_str().unwrap() {
+                "pid" => {
+                    let (sbn, esi) = (c["sbn"].as_u64().unwrap() as u8, c["esi"].as_u64().unwrap() as u32);
+                    let want = bytes_of(&c["bytes"]);
+                    let r = catch(move || {
+                        let id = raptorq::PayloadId::new(sbn, esi);
+                        let ser = id.serialize();
+                        let de = raptorq::PayloadId::deserialize(&ser);
+                        (ser, de.source_block_number(), de.encoding_symbol_id(), id.source_block_number(), id.encoding_symbol_id())
+                    });
+                    match r {
+                        Ok((ser, dsbn, desi, asbn, aesi)) => {
+                            got = json!({"ser": ser.to_vec(), "de": [dsbn, desi]});
+                            if ser.to_vec() != want { mism.push("payload id bytes differ from RFC 6330 3.2".into()); }
+                            if (dsbn, desi) != (sbn, esi) || (asbn, aesi) != (sbn, esi) { mism.push("payload id does not round-trip".into()); }
+                        }
+                        Err(m) => mism.push(format!("panic: {m}")),
+                    }
+                }
+                "pidbuf" => {
+                    let buf = bytes_of(&c["buf"]);
+                    let arr = [buf[0], buf[1], buf[2], buf[3]];
+                    let id = raptorq::PayloadId::deserialize(&arr);
+                    got = json!({"de": [id.source_block_number(), id.encoding_symbol_id()], "reser": id.serialize().to_vec()});
+                    if id.source_block_number() as u64 != c["sbn"].as_u64().unwrap() || id.encoding_symbol_id() as u64 != c["esi"].as_u64().unwrap() {
+                        mism.push("payload id parsed differently from RFC 6330 3.2".into());
+                    }
+                    if id.serialize() != arr { mism.push("payload id re-serialisation differs".into()); }
+                }
+                "otibuf" => {
+                    let buf = bytes_of(&c["buf"]);
+                    let mut arr = [0u8; 12];
+                    arr.copy_from_slice(&buf);
+                    let o = Oti::deserialize(&arr);
+                    got = json!({"de": oti_json(&o), "reser": o.serialize().to_vec()});
+                    if o.transfer_length() != lv(&c["f"]) || o.symbol_size() as u64 != c["t"].as_u64().unwrap()
+                        || o.source_blocks() as u64 != c["z"].as_u64().unwrap() || o.sub_blocks() as u64 != c["n"].as_u64().unwrap()
+                        || o.symbol_alignment() as u64 != c["al"].as_u64().unwrap() {
+                        mism.push("OTI parsed differently from RFC 6330 3.3.2/3.3.3".into());
+                    }
+                    if o.serialize().to_vec() != bytes_of(&c["reser"]) { mism.push("OTI re-serialisation differs (reserved byte excepted)".into()); }
+                    let again = Oti::deserialize(&o.serialize());
+                    if again != o { mism.push("OTI does not round-trip".into()); }
+                }
+                "otinew" => {
+                    let (f, t, z, n, al) = (lv(&c["f"]), c["t"].as_u64().unwrap() as u16, c["z"].as_u64().unwrap() as u8,
+                                            c["n"].as_u64().unwrap() as u16, c["al"].as_u64().unwrap() as u8);
+                    match try_new(f, t, z, n, al) {
+                        Ok(o) => {
+                            got = json!({"ser": o.serialize().to_vec()});
+                            if o.serialize().to_vec() != bytes_of(&c["bytes"]) { mism.push("OTI bytes differ from RFC 6330 3.3.2/3.3.3".into()); }
+                            if Oti::deserialize(&o.serialize()) != o { mism.push("OTI does not round-trip".into()); }
+                        }
+                        Err(m) => mism.push(format!("constructor refused an admissible OTI: {m}")),
+                    }
+                }
+                "pkt" => {
+                    let (sbn, esi) = (c["sbn"].as_u64().unwrap() as u8, c["esi"].as_u64().unwrap() as u32);
+                    let payload = bytes_of(&c["payload"]);
+                    let pk = raptorq::EncodingPacket::new(raptorq::PayloadId::new(sbn, esi), payload.clone());
+                    let ser = pk.serialize();
+                    got = json!({"ser": ser});
+                    if ser != bytes_of(&c["bytes"]) { mism.push("packet bytes differ from RFC 6330 4.4.2".into()); }
+                    let de = raptorq::EncodingPacket::deserialize(&ser);
+                    if de != pk || de.data() != &payload[..] || de.payload_id().encoding_symbol_id() != esi { mism.push("packet does not round-trip".into()); }
+                }
+                other => panic!("unknown wire case {other}"),
+            }
+        }
+        "layout" => {
+            let f = c["f"].as_u64().unwrap();
+            let (t, z, nn, al) = (c["t"].as_u64().unwrap() as u16, c["z"].as_u64().unwrap() as u8,
+                                  c["n"].as_u64().unwrap() as u16, c["al"].as_u64().unwrap() as u8);
+            let data: Vec<u8> = (0..f).map(|i| ((i * 37 + (i / 251) * 7 + 11) % 256) as u8).collect();
+            let want: Vec<(u8, u32, Vec<u8>)> = c["packets"].as_array().unwrap().iter().map(|p| {
+                (p[0].as_u64().unwrap() as u8, p[1].as_u64().unwrap() as u32,
+                 p[2].as_array().unwrap().iter().map(|b| b.as_u64().unwrap() as u8).collect())
+            }).collect();
+            let d2 = data.clone();
+            let r = catch(move || {
+                let oti = Oti::new(f, t, z, nn, al);
+                let enc = raptorq::Encoder::new(&d2, oti);
+                let pk = enc.get_encoded_packets(0);
+                let listed: Vec<(u8, u32, Vec<u8>)> = pk.iter().map(|p| (p.payload_id().source_block_number(), p.payload_id().encoding_symbol_id(), p.data().to_vec())).collect();
+                // decoder inverts the layout: deliver in reverse order through the one-shot interface
+                let mut dec = raptorq::Decoder::new(oti);
+                let mut res = None;
+                for p in pk.iter().rev() {
+                    res = dec.decode(p.clone());
+                }
+                // and block by block through the block decoders with the block lengths the decoder derives
+                (listed, res)
+            });
+            match r {
+                Ok((listed, res)) => {
+                    if listed != want {
+                        let first = listed.iter().zip(want.iter()).position(|(a, b)| a != b);
+                        mism.push(format!("source packet list differs from RFC 6330 4.4.1.2 (first difference at packet {:?}, {} vs {} packets)", first, listed.len(), want.len()));
+                        got = json!({"packets": listed.iter().map(|p| json!([p.0, p.1, p.2])).collect::<Vec<_>>()});
+                    }
+                    if res.as_deref() != Some(&data[..]) {
+                        mism.push("decoder does not invert the layout (wrong bytes or length)".into());
+                    }
+                }
+                Err(m) => mism.push(format!("panic: {m}")),
+            }
+        }
+        other => panic!("unknown case kind {other}"),
+    }
+    (got, mism)
+}
+
 pub fn replay(o: &Opts) {
     crate::util::quiet_panics();
     let input = BufReader::new(std::fs::File::open(o.str("in", "cases.ndjson")).unwrap());
@@ -32,196 +226,11 @@ pub fn replay(o: &Opts) {
         }
         let c: Value = serde_json::from_str(&line).unwrap();
         n += 1;
-        let mut mism: Vec<String> = vec![];
-        let mut got = json!(null);
-        match c["kind"].as_str().unwrap() {
-            "accept" => {
-                let (f, t, z, nn, al) = (lv(&c["f"]), c["t"].as_u64().unwrap() as u16, c["z"].as_u64().unwrap() as u8,
-                                         c["n"].as_u64().unwrap() as u16, c["al"].as_u64().unwrap() as u8);
-                let r = try_new(f, t, z, nn, al);
-                let want = c["accept"].as_bool().unwrap();
-                match &r {
-                    Ok(oti) => {
-                        got = json!({"accepted": true, "oti": oti_json(oti)});
-                        if !want {
-                            mism.push("accepted a configuration that violates a limit".into());
-                        }
-                        if oti.transfer_length() != f || oti.symbol_size() != t || oti.source_blocks() != z
-                            || oti.sub_blocks() != nn || oti.symbol_alignment() != al {
-                            mism.push("accessors do not echo the arguments".into());
-                        }
-                    }
-                    Err(m) => {
-                        got = json!({"accepted": false, "msg": m});
-                        if want {
-                            mism.push("refused a configuration within all limits".into());
-                        }
-                    }
-                }
-            }
-            "derive" => {
-                let (f, p, ws) = (lv(&c["f"]), c["p"].as_u64().unwrap() as u16, lv(&c["ws"]));
-                let valid = c["valid"].as_bool().unwrap();
-                let r = catch(move || raptorq::verif::derive_parameters(f, p, ws));
-                got = match &r {
-                    Ok(oti) => json!({"res":"ok","oti":oti_json(oti)}),
-                    Err(m) => json!({"res":"panic","msg":m}),
-                };
-                if valid {
-                    let want = (c["t"].as_u64().unwrap(), c["z"].as_u64().unwrap(), c["n"].as_u64().unwrap(), c["al"].as_u64().unwrap());
-                    let same = |o: &Oti| (o.symbol_size() as u64, o.source_blocks() as u64, o.sub_blocks() as u64, o.symbol_alignment() as u64) == want && o.transfer_length() == f;
-                    match &r {
-                        Ok(oti) => {
-                            if !same(oti) {
-                                mism.push("derived parameters differ from RFC 6330 4.3".into());
-                            }
-                        }
-                        Err(_) => mism.push("derivation panicked although a valid configuration exists".into()),
-                    }
-                    if ws == 10 * 1024 * 1024 {
-                        match catch(move || Oti::with_defaults(f, p)) {
-                            Ok(oti) => if !same(&oti) { mism.push("with_defaults differs from RFC 6330 4.3".into()); },
-                            Err(m) => mism.push(format!("with_defaults panicked: {m}")),
-                        }
-                    }
-                    if f <= 256 * 1024 {
-                        // public route: builder -> encoder -> config, then round trip through the decoder
-                        let data: Vec<u8> = (0..f).map(|i| (i.wrapping_mul(2654435761) >> 7) as u8).collect();
-                        let d2 = data.clone();
-                        let rt = catch(move || {
-                            let mut b = raptorq::EncoderBuilder::new();
-                            b.set_decoder_memory_requirement(ws);
-                            b.set_max_packet_size(p);
-                            let enc = b.build(&d2);
-                            let cfg = enc.get_config();
-                            let mut dec = raptorq::Decoder::new(cfg);
-                            let mut res = None;
-                            for pk in enc.get_encoded_packets(0) {
-                                res = dec.decode(pk);
-                            }
-                            (cfg, res)
-                        });
-                        match rt {
-                            Ok((cfg, res)) => {
-                                if !same(&cfg) { mism.push("EncoderBuilder config differs from RFC 6330 4.3".into()); }
-                                if res.as_deref() != Some(&data[..]) { mism.push("round trip through derived parameters failed".into()); }
-                            }
-                            Err(m) => mism.push(format!("EncoderBuilder route panicked: {m}")),
-                        }
-                    }
-                }
-            }
-            "wire" => {
-                let bytes_of = |v: &Value| -> Vec<u8> { v.as_array().unwrap().iter().map(|x| x.as_u64().unwrap() as u8).collect() };
-                match c["what"].as_str().unwrap() {
-                    "pid" => {
-                        let (sbn, esi) = (c["sbn"].as_u64().unwrap() as u8, c["esi"].as_u64().unwrap() as u32);
-                        let want = bytes_of(&c["bytes"]);
-                        let r = catch(move || {
-                            let id = raptorq::PayloadId::new(sbn, esi);
-                            let ser = id.serialize();
-                            let de = raptorq::PayloadId::deserialize(&ser);
-                            (ser, de.source_block_number(), de.encoding_symbol_id(), id.source_block_number(), id.encoding_symbol_id())
-                        });
-                        match r {
-                            Ok((ser, dsbn, desi, asbn, aesi)) => {
-                                got = json!({"ser": ser.to_vec(), "de": [dsbn, desi]});
-                                if ser.to_vec() != want { mism.push("payload id bytes differ from RFC 6330 3.2".into()); }
-                                if (dsbn, desi) != (sbn, esi) || (asbn, aesi) != (sbn, esi) { mism.push("payload id does not round-trip".into()); }
-                            }
-                            Err(m) => mism.push(format!("panic: {m}")),
-                        }
-                    }
-                    "pidbuf" => {
-                        let buf = bytes_of(&c["buf"]);
-                        let arr = [buf[0], buf[1], buf[2], buf[3]];
-                        let id = raptorq::PayloadId::deserialize(&arr);
-                        got = json!({"de": [id.source_block_number(), id.encoding_symbol_id()], "reser": id.serialize().to_vec()});
-                        if id.source_block_number() as u64 != c["sbn"].as_u64().unwrap() || id.encoding_symbol_id() as u64 != c["esi"].as_u64().unwrap() {
-                            mism.push("payload id parsed differently from RFC 6330 3.2".into());
-                        }
-                        if id.serialize() != arr { mism.push("payload id re-serialisation differs".into()); }
-                    }
-                    "otibuf" => {
-                        let buf = bytes_of(&c["buf"]);
-                        let mut arr = [0u8; 12];
-                        arr.copy_from_slice(&buf);
-                        let o = Oti::deserialize(&arr);
-                        got = json!({"de": oti_json(&o), "reser": o.serialize().to_vec()});
-                        if o.transfer_length() != lv(&c["f"]) || o.symbol_size() as u64 != c["t"].as_u64().unwrap()
-                            || o.source_blocks() as u64 != c["z"].as_u64().unwrap() || o.sub_blocks() as u64 != c["n"].as_u64().unwrap()
-                            || o.symbol_alignment() as u64 != c["al"].as_u64().unwrap() {
-                            mism.push("OTI parsed differently from RFC 6330 3.3.2/3.3.3".into());
-                        }
-                        if o.serialize().to_vec() != bytes_of(&c["reser"]) { mism.push("OTI re-serialisation differs (reserved byte excepted)".into()); }
-                        let again = Oti::deserialize(&o.serialize());
-                        if again != o { mism.push("OTI does not round-trip".into()); }
-                    }
-                    "otinew" => {
-                        let (f, t, z, n, al) = (lv(&c["f"]), c["t"].as_u64().unwrap() as u16, c["z"].as_u64().unwrap() as u8,
-                                                c["n"].as_u64().unwrap() as u16, c["al"].as_u64().unwrap() as u8);
-                        match try_new(f, t, z, n, al) {
-                            Ok(o) => {
-                                got = json!({"ser": o.serialize().to_vec()});
-                                if o.serialize().to_vec() != bytes_of(&c["bytes"]) { mism.push("OTI bytes differ from RFC 6330 3.3.2/3.3.3".into()); }
-                                if Oti::deserialize(&o.serialize()) != o { mism.push("OTI does not round-trip".into()); }
-                            }
-                            Err(m) => mism.push(format!("constructor refused an admissible OTI: {m}")),
-                        }
-                    }
-                    "pkt" => {
-                        let (sbn, esi) = (c["sbn"].as_u64().unwrap() as u8, c["esi"].as_u64().unwrap() as u32);
-                        let payload = bytes_of(&c["payload"]);
-                        let pk = raptorq::EncodingPacket::new(raptorq::PayloadId::new(sbn, esi), payload.clone());
-                        let ser = pk.serialize();
-                        got = json!({"ser": ser});
-                        if ser != bytes_of(&c["bytes"]) { mism.push("packet bytes differ from RFC 6330 4.4.2".into()); }
-                        let de = raptorq::EncodingPacket::deserialize(&ser);
-                        if de != pk || de.data() != &payload[..] || de.payload_id().encoding_symbol_id() != esi { mism.push("packet does not round-trip".into()); }
-                    }
-                    other => panic!("unknown wire case {other}"),
-                }
-            }
-            "layout" => {
-                let f = c["f"].as_u64().unwrap();
-                let (t, z, nn, al) = (c["t"].as_u64().unwrap() as u16, c["z"].as_u64().unwrap() as u8,
-                                      c["n"].as_u64().unwrap() as u16, c["al"].as_u64().unwrap() as u8);
-                let data: Vec<u8> = (0..f).map(|i| ((i * 37 + (i / 251) * 7 + 11) % 256) as u8).collect();
-                let want: Vec<(u8, u32, Vec<u8>)> = c["packets"].as_array().unwrap().iter().map(|p| {
-                    (p[0].as_u64().unwrap() as u8, p[1].as_u64().unwrap() as u32,
-                     p[2].as_array().unwrap().iter().map(|b| b.as_u64().unwrap() as u8).collect())
-                }).collect();
-                let d2 = data.clone();
-                let r = catch(move || {
-                    let oti = Oti::new(f, t, z, nn, al);
-                    let enc = raptorq::Encoder::new(&d2, oti);
-                    let pk = enc.get_encoded_packets(0);
-                    let listed: Vec<(u8, u32, Vec<u8>)> = pk.iter().map(|p| (p.payload_id().source_block_number(), p.payload_id().encoding_symbol_id(), p.data().to_vec())).collect();
-                    // decoder inverts the layout: deliver in reverse order through the one-shot interface
-                    let mut dec = raptorq::Decoder::new(oti);
-                    let mut res = None;
-                    for p in pk.iter().rev() {
-                        res = dec.decode(p.clone());
-                    }
-                    // and block by block through the block decoders with the block lengths the decoder derives
-                    (listed, res)
-                });
-                match r {
-                    Ok((listed, res)) => {
-                        if listed != want {
-                            let first = listed.iter().zip(want.iter()).position(|(a, b)| a != b);
-                            mism.push(format!("source packet list differs from RFC 6330 4.4.1.2 (first difference at packet {:?}, {} vs {} packets)", first, listed.len(), want.len()));
-                            got = json!({"packets": listed.iter().map(|p| json!([p.0, p.1, p.2])).collect::<Vec<_>>()});
-                        }
-                        if res.as_deref() != Some(&data[..]) {
-                            mism.push("decoder does not invert the layout (wrong bytes or length)".into());
-                        }
-                    }
-                    Err(m) => mism.push(format!("panic: {m}")),
-                }
-            }
-            other => panic!("unknown case kind {other}"),
-        }
+        // a panic anywhere inside one case is a result of that case, not the end of the replay
+        let (got, mism) = match catch(std::panic::AssertUnwindSafe(|| eval_case(&c))) {
+            Ok(r) => r,
+            Err(m) => (json!({"panic": m}), vec![format!("panic: {m}")]),
+        };
         if !mism.is_empty() {
             bad += 1;
             out.emit(json!({"case": c, "got": got, "mismatch": mism}));
